@@ -25,7 +25,9 @@ META = {
                  'nodes only from accepting states (PAR-3), no local is read unbound on a feasible path in tokenizer / '
                  'parser / tree modules (DA, path-sensitive), the scan loop cannot loop without assigning the position and '
                  'the fallback advances by a positive constant (TOK-6), the f-string closer ranges over every stack entry the '
-                 'line cut ranges over (TOK-9), no early exit before the epilogue (TOK-5), the 9 '
+                 'line cut ranges over (TOK-9), no early exit before the epilogue (TOK-5), the engine spends no interpreter '
+                 'frame per reduced rule (PAR-13), no parser / tokenizer state survives an abandoned parse (EFF-1 from '
+                 'Grammar.parse), the 9 '
                  'grammars cannot make the generator raise (GR-1..3). Does not decide absence of every implicit exception.',
         'note': _TB + 'Five reasoned DA suppressions (named symbol + reason) in rules/dar.py.',
         'technique': 'path-sensitive definite-assignment + CFG path rules + LL(1) grammar analysis',
@@ -68,7 +70,8 @@ META = {
                  'nullable rules, FIRST/FIRST conflicts in every DFA state and FIRST/FOLLOW conflicts at every accepting '
                  'state with out-arcs (which parso\'s own generator does not test); every quoted terminal is one NAME/OP token '
                  'of that version\'s tokenizer under ordered-choice regex semantics (GR-5); every read of the reserved-word '
-                 'table is keyed by the token\'s own unmodified text at the read site and at every call site (PAR-11). Does '
+                 'table is keyed by the token\'s own unmodified text at the read site and at every call site (PAR-11); the '
+                 'engine is iterative - every call cycle through _add_token passes through error_recovery (PAR-13). Does '
                  'not decide that the returned tree equals the derivation.',
         'note': _TB + 'Assumes generator.py builds the tables the text describes (structural part: C08).',
         'technique': 'LL(1) FIRST/FOLLOW conflict analysis of the grammar files + ordered-choice regex matching of terminals',
@@ -77,15 +80,17 @@ META = {
         'level': 'Decides mode non-interference up to the first error: the recovery flag is read at exactly three sites, '
                  'recovery-only state is touched only behind the flag, the strict exit is guarded by it, the token filter is '
                  'installed only in recovery mode and forwards every token while no indent was discarded, strict mode builds '
-                 'its error leaf from the offending token (PAR-6). Equality of the result trees as values is not decided.',
+                 'its error leaf from the offending token (PAR-6); the filter state starts empty in every parse - no parser '
+                 'state is shared between parses (EFF-1 from Grammar.parse). Equality of the result trees as values is not decided.',
         'note': _TB,
         'technique': 'read-site inventory + edge-dominance on CFGs of the parser',
     },
     'C08': {
         'level': 'Decides the rejection paths of the generator: a table store is reachable only through a failed membership '
                  'test whose success raises (GEN-1), the left-recursion sentinel dominates recursion and finding it raises '
-                 '(GEN-2), DFA state equality compares finality, arc count and arc identity before any `return True` and '
-                 'states are merged only when equal (GEN-3); the EBNF -> NFA step: on every path of the four combinators of '
+                 '(GEN-2), DFA state equality compares finality, arc count and arc identity label by label before any positive '
+                 'verdict and states are merged only when equal (GEN-3); no recursive function hands out a memo entry it '
+                 'stored before its recursive calls returned (GEN-6); the EBNF -> NFA step: on every path of the four combinators of '
                  'grammar_parser.py (abstractly interpreted: opaque look-ahead with recorded constraints, sub-fragments in five '
                  'representative wirings, at most three operands) the automaton built accepts exactly the language of the '
                  'EBNF phrase the path consumed (GEN-5, regular-language equivalence); plus the independent verdict that all '
@@ -129,8 +134,9 @@ META = {
                  'the token-value model built from the folded tokenizer regexes and the grammars, a registered spelling can '
                  'only reach a rule through keyword/operator leaves or the rule narrows first), text comparisons in errors.py '
                  'are category safe (TC-1), no grammar version is a local outlier between its neighbours (GR-11, product of '
-                 'rule DFAs with witness), every terminal is producible and the := gate matches the grammars (GR-5). The '
-                 'logic of the semantic rules is not decided.',
+                 'rule DFAs with witness), every terminal is producible and the := gate matches the grammars (GR-5), every '
+                 'number literal / operator CPython reads as one token is one token here (RX-7/8). The logic of the semantic '
+                 'rules is not decided.',
         'note': _TB + 'Assumes CPython\'s syntax is convex over 3.6-3.14 at production level (stated in evidence).',
         'technique': 'leaf-category (type-confusion) analysis over regex value languages + cross-version grammar inclusion',
     },
@@ -149,7 +155,8 @@ META = {
                  'container node types computed from the grammars (GR-8a), every rule with a binding operator is a definition '
                  'type, delegated or special-cased (GR-8b), text comparisons in the helpers are leaf-category safe (TC-1), no '
                  'unbound local in python/tree.py (DA); helper results memoised on the tree are reset by the incremental '
-                 'parser (TREE-6). Agreement with CPython\'s ast over all programs is not decided.',
+                 'parser (TREE-6); Name.get_definition never gives up under a node type its sibling _defined_names finds '
+                 'targets through (GR-8d). Agreement with CPython\'s ast over all programs is not decided.',
         'note': _TB + 'Three listed known findings (inline := in argument / dictorsetmaker / subscript).',
         'technique': 'grammar reachability with tree-shape conventions vs. helper tables + leaf-category analysis',
     },
@@ -157,7 +164,8 @@ META = {
         'level': 'Decides over all strings: split_lines breaks exactly at \\n, \\r\\n, \\r and its keepends branch is '
                  'conservative (RX-3/4); the text in which parso finds a PEP 263 declaration equals the text in which CPython\'s '
                  'cookie_re / blank-line rule finds one (RX-5, inclusion both ways, reference pattern folded from '
-                 'Lib/tokenize.py), an unterminated last line is seen (RX-6), BOM test first. Codec behaviour is not decided.',
+                 'Lib/tokenize.py), an unterminated last line is seen (RX-6), BOM test first; no memoising wrapper hands one '
+                 'mutable line list to several callers (EFF-6). Codec behaviour is not decided.',
         'note': _TB,
         'technique': 'regular-language inclusion / equality (bytes alphabet) against the folded CPython cookie pattern',
     },
